@@ -79,7 +79,7 @@ class TLCResult:
         self.finished = "Model checking completed" in out or "Finished in" in out
         self.noerror = "No error has been found" in out
         self.inv_violated = re.findall(r"Invariant (\S+) is violated", out)
-        self.prop_violated = bool(re.search(r"Temporal propert(y|ies) .*violated", out)) or bool(re.search(r"Action property \S+ is violated", out))
+        self.prop_violated = bool(re.search(r"Temporal propert(y|ies) .*violated", out)) or bool(re.search(r"Action property .* is violated", out))
         self.deadlock = "Deadlock reached" in out
         self.crashed = (not self.finished and not self.inv_violated and not self.prop_violated and not self.deadlock) or \
             "java.lang.OutOfMemoryError" in out or "StackOverflowError" in out
